@@ -851,6 +851,8 @@ fn pick_alphabet(rng: &mut Rng) -> Vec<u8> {
         1 => vec![b'a', 0xfe, 0xff, 0x01],
         // adjacent bytes
         2 => vec![b'0', b'1', b'2', b'3'],
+        // bytes of multi-byte UTF-8 characters: literals such as "é" go through `NFA::from(&str)`
+        3 => vec![0xc3, 0xa9, 0xa8, b'a'],
         _ => vec![b'a', b'b', b'c', b'd'],
     };
     if rng.chance(1, 3) {
